@@ -976,6 +976,25 @@ def sibling_twins(trace, upto):
     return out
 
 
+def dangling_group_after_flatten(trace, upto):
+    """Trigger class of finding S22: flattening an unrolled circuit dissolved a block that is a member of a group relation
+    ("after the latest of these") -- the member is left dangling (it is not in the flattened circuit any more) -- and afterwards
+    the flattened circuit was copied (nested or copied); the copy resolves the dangling member by value, possibly to the
+    enclosing circuit itself (a relation cycle: RecursionError on the next time query).  Returns the circuits concerned."""
+    dangling, out = set(), set()
+    for e in trace[:upto]:
+        if e['ev'] == 'Flatten':
+            tree = e.get('tree') or {}
+            if any(L['k'] == 'multi' and any(r not in tree for r in L['refs']) for L in (e.get('links') or {}).values()):
+                dangling.add(e['c'])
+        elif e['ev'] in ('AddSub', 'CopyCirc') and e.get('s') in dangling:
+            out.add(e['s'])
+            out.add(e['id'])
+            if e['ev'] == 'AddSub':
+                out.add(e['c'])
+    return out
+
+
 def refers_to_twin(f, trace):
     """The failing object's relation (in the source, as expected, or as reported) points at one of the twin sibling blocks."""
     tw = sibling_twins(trace, f['l'])
@@ -1008,6 +1027,9 @@ def signature(f, ev, trace, prog):
             ('<<-1,' in f['info'] or cl in ('C07.monotone', 'C07.filter.qubit', 'C07.filter.tag', 'C07.partition')):
         if twin_trigger(trace, f['l'] - 1):
             return 'twin-circuit-registry'
+    if (cl == 'C00.exception' and 'RecursionError' in f['info']) or cl in ('C05.iso.link', 'C01.eq.multi'):
+        if dangling_group_after_flatten(trace, f['l']):
+            return 'flatten-dangling-group-member'
     if cl in ('C05.iso.link', 'C01.eq.FB', 'C01.eq.JS', 'C01.eq.JE') and refers_to_twin(f, trace):
         return 'sibling-twin-blocks-relinked'
     if cl == 'C04.followers' and ev.get('ev') == 'Obs':
